@@ -145,7 +145,20 @@ int main(int argc, char** argv) {
             // periodic: x = period*k + r, r in the remainder range; check the k's whose x lies in the requested argument interval
             double L = p.periodLength; std::vector<double> ks = {p.periodicFactorRange.lb, p.periodicFactorRange.ub, std::floor((p.periodicFactorRange.lb + p.periodicFactorRange.ub) / 2), p.periodicFactorRange.lb + 1, p.periodicFactorRange.ub - 1};
             if (!(L > 0)) fail("non-positive-period");
-            else for (double k : ks) {
+            else {
+              // coverage: every x of the reported argument domain must be L*k + r with an integer k of the factor range and r of the remainder range
+              double klo = std::ceil(p.periodicFactorRange.lb), khi = std::floor(p.periodicFactorRange.ub);
+              double rlo = p.periodRemainderRange.lb, rhi = p.periodRemainderRange.ub;
+              double need_lo = std::max(p.grDomOut.lbx, c.lbx), need_hi = std::min(p.grDomOut.ubx, c.ubx);
+              bool everywhere_defined = !strcmp(FN[c.fid], "sin") || !strcmp(FN[c.fid], "cos");   // tan leaves gaps around its poles by design
+              if (klo > khi) fail("periodic-factor-range-empty");
+              else if (everywhere_defined) {
+                if (L * klo + rlo > need_lo + 1e-9 * std::max(1.0, std::fabs(need_lo))) fail("periodic-decomposition-does-not-cover-domain:low-end", "smallest representable " + vf::jnum(L * klo + rlo) + " domain starts " + vf::jnum(need_lo));
+                if (L * khi + rhi < need_hi - 1e-9 * std::max(1.0, std::fabs(need_hi))) fail("periodic-decomposition-does-not-cover-domain:high-end", "largest representable " + vf::jnum(L * khi + rhi) + " domain ends " + vf::jnum(need_hi));
+                if (khi > klo && rhi - rlo < L * (1 - 1e-9)) fail("periodic-decomposition-does-not-cover-domain:gaps", "remainder range shorter than the period");
+              }
+            }
+            if (L > 0) for (double k : ks) {
               if (k < p.periodicFactorRange.lb || k > p.periodicFactorRange.ub) continue;
               for (size_t s = 0; s + 1 < npts; ++s) {
                 // only where x = L*k + r is inside [lbx, ubx]
